@@ -552,6 +552,71 @@ fn cli_vcells_cases(rep: &mut Report, rng: &mut Rng, n: u64) {
         continue;
       }
     };
+    // the same map as a multi-order-map FITS file through `moc from vcells ... multires` (one case in four): the
+    // MOC printed must be the one the library reader returns on the same bytes with the same options
+    if rng.chance(1, 4) {
+      let rows: Vec<(u64, f64)> = triples.iter().map(|t| (t.0, t.2)).collect();
+      let bytes = mom_fits(dm, &rows);
+      let pm = format!("{}/c20_mom.fits", scratch);
+      std::fs::write(&pm, &bytes).unwrap();
+      let mut a2: Vec<String> = vec!["from".into(), "vcells".into()];
+      if asc { a2.push("-a".into()); }
+      if !strict { a2.push("-s".into()); }
+      if !no_split { a2.push("-p".into()); }
+      if rev { a2.push("-r".into()); }
+      a2.extend(["-f".to_string(), format!("{}", from), "-t".to_string(), format!("{}", to), "multires".to_string(), pm.clone(), "ascii".to_string()]);
+      let lib = catch(move || {
+        from_fits_multiordermap(std::io::BufReader::new(std::io::Cursor::new(bytes)), from, to, asc, strict, no_split, rev)
+          .map(|m| m.moc_ranges().iter().map(|x| (x.start, x.end)).collect::<Vec<(u64, u64)>>())
+          .map_err(|e| format!("{:?}", e))
+      });
+      if let Ok(Ok(l)) = lib {
+        rep.evaluations += 1;
+        rep.count("cli:from-vcells-multires");
+        let case2 = format!("CLI moc {} # rows(uniq, density)={:?}", a2.join(" "), rows);
+        if let Ok(o) = std::process::Command::new(&bin).args(&a2).output() {
+          let text = String::from_utf8_lossy(&o.stdout).to_string();
+          let got = from_ascii_ivoa::<u64, moc::qty::Hpx<u64>>(&text).map(|m| m.into_cellcellrange_moc_iter().ranges().into_range_moc().moc_ranges().iter().map(|r| (r.start, r.end)).collect::<Vec<(u64, u64)>>()).map_err(|e| format!("{:?}", e));
+          if !o.status.success() || got.as_ref() != Ok(&l) {
+            rep.violation("`moc from vcells ... multires` does not print what the library reader returns on the same file and options", &case2, &format!("exit {:?} {:?}", o.status.code(), got.map(|g| ranges_str(&g))), &ranges_str(&l), "C20 (the command line hands the map and the options to the selection unchanged)");
+          }
+        }
+      }
+    }
+    // ... and a small sky map through `moc from vcells ... skymap` (one case in six)
+    if rng.chance(1, 6) {
+      let sd: u8 = if rng.chance(1, 2) { 0 } else { 1 };
+      let npix = 12usize << (2 * sd as usize);
+      let pix: Vec<u64> = (0..npix).map(|i| if rng.chance(1, 5) { 0 } else { 1 + ((i as u64 * 7 + rng.below(5)) % 9) }).collect();
+      let tot: f64 = pix.iter().map(|v| *v as f64).sum();
+      let (f2, t2) = { let a = tot * (rng.below(9) as f64) / 8.0; let b = tot * (rng.below(9) as f64) / 8.0; if a <= b { (a, b) } else { (b, a) } };
+      let bytes = skymap_fits(sd, &pix);
+      let ps = format!("{}/c20_skymap.fits", scratch);
+      std::fs::write(&ps, &bytes).unwrap();
+      let mut a3: Vec<String> = vec!["from".into(), "vcells".into()];
+      if asc { a3.push("-a".into()); }
+      if !strict { a3.push("-s".into()); }
+      if !no_split { a3.push("-p".into()); }
+      if rev { a3.push("-r".into()); }
+      a3.extend(["-f".to_string(), format!("{}", f2), "-t".to_string(), format!("{}", t2), "skymap".to_string(), ps.clone(), "ascii".to_string()]);
+      let lib = catch(move || {
+        from_fits_skymap(std::io::BufReader::new(std::io::Cursor::new(bytes)), 0.0, f2, t2, asc, strict, no_split, rev)
+          .map(|m| m.moc_ranges().iter().map(|x| (x.start, x.end)).collect::<Vec<(u64, u64)>>())
+          .map_err(|e| format!("{:?}", e))
+      });
+      if let Ok(Ok(l)) = lib {
+        rep.evaluations += 1;
+        rep.count("cli:from-vcells-skymap");
+        let case3 = format!("CLI moc {} # depth={} pixels={:?}", a3.join(" "), sd, pix);
+        if let Ok(o) = std::process::Command::new(&bin).args(&a3).output() {
+          let text = String::from_utf8_lossy(&o.stdout).to_string();
+          let got = from_ascii_ivoa::<u64, moc::qty::Hpx<u64>>(&text).map(|m| m.into_cellcellrange_moc_iter().ranges().into_range_moc().moc_ranges().iter().map(|r| (r.start, r.end)).collect::<Vec<(u64, u64)>>()).map_err(|e| format!("{:?}", e));
+          if !o.status.success() || got.as_ref() != Ok(&l) {
+            rep.violation("`moc from vcells ... skymap` does not print what the library reader returns on the same file and options", &case3, &format!("exit {:?} {:?}", o.status.code(), got.map(|g| ranges_str(&g))), &ranges_str(&l), "C20 (the command line hands the map and the options to the selection unchanged)");
+          }
+        }
+      }
+    }
     match std::process::Command::new(&bin).args(&args).output() {
       Ok(o) => {
         let text = String::from_utf8_lossy(&o.stdout).to_string();
